@@ -281,7 +281,7 @@ pub fn run(ctx: &Ctx) {
         ctx,
         Pt {
             name: "c13.program",
-            cases: ctx.scale(20_000, 1_000_000),
+            cases: ctx.scale(60_000, 1_000_000),
             max_len: 1500,
             decode: &decode,
             oracle: &oracle,
